@@ -400,3 +400,27 @@ def c13_shared_ast(viol, inp, param):
         return False
     d = json.loads(viol["detail"])
     return d[-1] == 1
+
+
+# ---- C14: an imported file is compiled on its own and then overlaid ---------------------------------------------
+_C14_ASPECTS = ("import-is-not-inlining", "file-set-and-its-inlined-twin-compile-differently", "valid-file-set-rejected", "reference-to-a-missing-connection-accepted")
+
+
+def _c14_flags(viol):
+    d = json.loads(viol["detail"])
+    return d[-3], d[-2], d[-1]   # a null declaration / a shared connection bundle / an indexed reference in an imported file
+
+
+@classifier("c14_null_in_imported_file_stays_local")
+def c14_null(viol, inp, param):
+    return viol["aspect"] in _C14_ASPECTS and _c14_flags(viol)[0] == 1
+
+
+@classifier("c14_imported_connection_merges_with_an_equal_one")
+def c14_twice(viol, inp, param):
+    return viol["aspect"] in _C14_ASPECTS and _c14_flags(viol)[1] == 1
+
+
+@classifier("c14_indexed_reference_in_imported_file_sees_only_that_file")
+def c14_eref(viol, inp, param):
+    return viol["aspect"] in _C14_ASPECTS and _c14_flags(viol)[2] == 1
